@@ -311,6 +311,10 @@ func (w *agWorld) ruleOf(vp base.Voteproof) string {
 		return "majority-missing"
 	}
 
+	if _, ok := vp.(base.StuckVoteproof); ok {
+		return "stuck-voteproof-claims-majority"
+	}
+
 	if ef, ok := vp.Majority().(isaac.ExpelBallotFact); ok && len(ef.ExpelFacts()) > 0 && len(expels) > 0 {
 		hs := ef.ExpelFacts()
 		if len(hs) != len(expels) {
@@ -761,6 +765,29 @@ func (w *agWorld) assemble(sp base.StagePoint, ck string, k int) {
 		}
 
 		vp := w.build(sp, sfs, M, expels)
+
+		// a stuck voteproof is what the resolver builds when a stage point cannot be decided: it decides nothing.
+		// A crafted one claims a majority all the same (the constructor's Finish clears it; the claim is set afterwards)
+		if len(expels) > 0 && r.Chance(1, 6) {
+			if sp.Stage() == base.StageINIT {
+				svp := isaac.NewINITStuckVoteproof(sp.Point)
+				svp.SetSignFacts(sfs)
+				svp.SetExpels(expels)
+				svp.Finish()
+				svp.SetMajority(M)
+				vp = svp
+			} else {
+				svp := isaac.NewACCEPTStuckVoteproof(sp.Point)
+				svp.SetSignFacts(sfs)
+				svp.SetExpels(expels)
+				svp.Finish()
+				svp.SetMajority(M)
+				vp = svp
+			}
+
+			spice = append(spice, "a stuck voteproof that claims a majority")
+			r.Probe("assembled_stuck_with_majority")
+		}
 
 		if w.offer(vp, "assembled", strings.Join(spice, "; ")) {
 			r.Probe("assembled_accepted")
